@@ -94,6 +94,73 @@ class PyConst:
         return f"PyConst({self.val!r})"
 
 
+class Heap(dict):
+    """The heap, with *views*: a name bound to a mutable value that lives inside a
+    dict (x = d[k]; for k, x in d.items()) shares it with the dict.  The view's
+    content is written back into the container whenever the container is read
+    (lazy flush); once the container is written directly the view is stale and
+    any further use of it leaves the modelled subset (Unsupported), so nothing
+    is ever silently lost."""
+
+    def __init__(self, *a):
+        super().__init__(*a)
+        self.views = []  # [view id, container id, key term, stale]
+        self.busy = False
+
+    def clone(self):
+        h = Heap(self)
+        h.views = [list(v) for v in self.views]
+        return h
+
+    def plain(self):
+        """a flushed plain-dict copy (snapshots for old(...))"""
+        self.flush()
+        return dict(self)
+
+    def flush(self, cont=None):
+        if self.busy or not self.views:
+            return
+        self.busy = True
+        try:
+            for v in self.views:
+                if v[3] or (cont is not None and v[1] != cont):
+                    continue
+                c, x = dict.__getitem__(self, v[1]), dict.__getitem__(self, v[0])
+                t = c.t
+                if isinstance(t, Ty.ODict):
+                    n = len(t.keys_t.sorts())
+                    comps = list(c.c[: n + 1]) + [z3.Store(a, v[2], xc) for a, xc in zip(c.c[n + 1 :], x.c)]
+                else:
+                    comps = [c.c[0]] + [z3.Store(a, v[2], xc) for a, xc in zip(c.c[1:], x.c)]
+                dict.__setitem__(self, v[1], V(t, comps))
+        finally:
+            self.busy = False
+
+    def __getitem__(self, i):
+        if self.views and not self.busy:
+            for v in self.views:
+                if v[0] == i and v[3]:
+                    raise Unsupported("an alias of a dict entry is used after the dict itself was changed")
+            if any(v[1] == i and not v[3] for v in self.views):
+                self.flush(i)
+        return dict.__getitem__(self, i)
+
+    def __setitem__(self, i, val):
+        if self.views and not self.busy:
+            for v in self.views:
+                if v[1] == i and not v[3]:
+                    v[3] = True
+        dict.__setitem__(self, i, val)
+
+    def add_view(self, view_id, cont_id, key):
+        self.flush(cont_id)
+        # an older view of the same entry would fight with the new one
+        for v in self.views:
+            if v[1] == cont_id and not v[3]:
+                v[3] = True
+        self.views.append([view_id, cont_id, key, False])
+
+
 class Obligation:
     def __init__(self, label, kind, pc, goal, lineno=None):
         self.label, self.kind, self.pc, self.goal, self.lineno = label, kind, pc, goal, lineno
@@ -102,7 +169,7 @@ class Obligation:
 class State:
     def __init__(self):
         self.vars = {}
-        self.heap = {}
+        self.heap = Heap()
         self.pc = []
         self.nstmt = 0
         self.old = None  # pre-state snapshot (vars, heap)
@@ -113,7 +180,7 @@ class State:
     def clone(self):
         s = State.__new__(State)
         s.vars = dict(self.vars)
-        s.heap = dict(self.heap)
+        s.heap = self.heap.clone()
         s.pc = list(self.pc)
         s.nstmt = self.nstmt
         s.old = self.old
@@ -1476,6 +1543,27 @@ class Engine:
             return
         raise Unsupported("write-back through this expression")
 
+    def view_of_entry(self, st, cont_expr, key_expr, val):
+        """If `cont_expr` denotes a dict on the heap whose values are mutable, bind the value as a view of that entry."""
+        if not (isinstance(val, (V, Ref))):
+            return val
+        vv = self.deref(st, val)
+        if not (isinstance(vv, V) and vv.t.mutable):
+            return val
+        try:
+            base = self.eval(st, cont_expr)
+        except Unsupported:
+            return val
+        if not isinstance(base, Ref):
+            return val
+        cont = st.heap[base.id]
+        if not (isinstance(cont, V) and isinstance(cont.t, (Ty.Map, Ty.ODict)) and cont.t.v.mutable and len(cont.t.v.sorts()) == len(vv.c)):
+            return val
+        key = key_expr if z3.is_expr(key_expr) else self.keyterm(self.deref(st, self.eval(st, key_expr)))
+        ref = val if isinstance(val, Ref) else self.alloc(st, vv)
+        st.heap.add_view(ref.id, base.id, key)
+        return ref
+
     def s_Assign(self, st, stmt):
         for t in stmt.targets:
             if isinstance(t, ast.Name):
@@ -1486,6 +1574,12 @@ class Engine:
             val = self.eval(st, stmt.value.body if b else stmt.value.orelse)
         else:
             val = self.eval(st, stmt.value)
+        if len(stmt.targets) == 1 and isinstance(stmt.targets[0], ast.Name):
+            sv = stmt.value
+            if isinstance(sv, ast.Subscript) and not isinstance(sv.slice, ast.Slice):
+                val = self.view_of_entry(st, sv.value, sv.slice, val)  # x = d[k]: x IS the entry
+            elif isinstance(sv, ast.Call) and isinstance(sv.func, ast.Attribute) and sv.func.attr == "setdefault" and len(sv.args) == 2:
+                val = self.view_of_entry(st, sv.func.value, sv.args[0], val)  # x = d.setdefault(k, v)
         for t in stmt.targets:
             self.assign_target(st, t, val, stmt)
         return [(st, "normal")]
